@@ -142,6 +142,11 @@ IDENT_PROG = ('import a.b as c\nfrom m.n import p as q\nfrom . import r\ndef f(a
 IDENT_PROG2 = ('import \ufb01.\ufb02 as \ufb03\nfrom \ufb01.\ufb02 import \ufb01 as \ufb02\ndef \ufb01(\ufb01, *\ufb02, \ufb03=1, **\ufb04): pass\nclass \ufb01: pass\nx.\ufb01 = \ufb02\nf(\ufb01=1)\ndef h():\n    global \ufb01\n    nonlocal_ = 1\n'
                'match v:\n  case {**\ufb01}: pass\n  case [*\ufb01]: pass\n  case C(\ufb01=1): pass\n  case t as \ufb01: pass\n  case {1: a, **\ufb02}: pass\ntry: pass\nexcept E as \ufb01: pass\ntype T[\ufb01, *\ufb02, **\ufb03] = \ufb01\n'
                'def k(\ufb01: int, *\ufb02: str): pass\ntype U[\ufb01: int] = \ufb01\n')
+SLOT_PROG = ('async def fn(a0: an0 = df0, *va: an1, k0=df1, **kw) -> rt:\n    r0 = [e0 for t0 in it0 if c0 if c1 for t1 in it1]\n    r1 = {k1: v1 for t2 in it2}\n    r2 = b0 and b1 or not b2\n'
+             '    r3 = x0 < x1 <= x2\n    r4 = y0 + y1 * -y2 ** y3\n    r5 = g0(p0, *p1, kk=p2, **p3)\n    r6 = s0[i0:i1:i2, i3]\n    r7 = o0.at\n    r8 = t_ if c_ else f_\n    r9 = lambda q0=dq: bd\n'
+             '    r10 = {dk: dv, **dd}\n    r11 = {se0, se1}\n    r12 = (tu0, tu1)\n    r13 = f"{fv0!r:>{fw0}}"\n    r14 = await aw0\n    r15 = yield yv\n    r16 = (ne := nv)\n    r17 = [*sv]\n'
+             '    for ft in fi: pass\n    while wc: pass\n    if ic: pass\n    with w0 as w1, w2: pass\n    assert as0, as1\n    raise ex0 from ex1\n    del dl[di]\n    tg[ti] = tv\n    ag += av\n    an: ann = anv\n'
+             '    return rv\n@dec0(dc1)\nclass K(B0, mk=mv): pass\nmatch ms:\n    case mp.q if mg: pass\n')
 INDENT_PROGS = ['def f():\n    b\'\'\'x\n    y\'\'\'\n    return 1\n', 'class K:\n    def m(self):\n        b\'\'\'p\n  q\'\'\'\n        \'\'\'s\n        t\'\'\'\n        z = b\'\'\'u\n        v\'\'\'\n        return z\n',
                 'def g():\n    \'\'\'doc\n    more\'\'\'\n    x = \'\'\'a\n    b\'\'\'\n    f\'\'\'c{x}\n    d\'\'\'\n    rb\'\'\'e\n    f\'\'\'\n    return x\n']
 PRIM_PROGS = ['x = 1.0.real\n', 'x = [1for y in z]\n', 'x = 1if y else 2\n', 'x = "a".upper()\n', 'x = not"a"\n', 'def f():\n    return"a" + b\n', 'x = "a"if"b"else"c"\n',
@@ -316,6 +321,62 @@ def stage_structural_sweep(ctx: Ctx):
                 if d:
                     ctx.violation(f'pos|identifier-written-unnormalized|{type(f.a).__name__}.{fld}', 'after an edit next to an identifier written with compatibility characters the source parsed from scratch differs from the live tree',
                                   {**rec, 'result_src': root.src, 'diffs': d})
+            # (h) every expression slot of a program that holds one of each kind, replaced by expressions of the LOWEST precedences (conditional, lambda, walrus, tuple,
+            #     yield, await-less unary not): the source parsed from scratch must be the live tree (the slot parenthesizes what it must)
+            probe_s = fst.FST(SLOT_PROG, 'exec')
+            spaths = [probe_s.child_path(f) for f in probe_s.walk(True) if isinstance(f.a, ast.expr) and isinstance(getattr(f.a, 'ctx', ast.Load()), ast.Load) and f.parent is not None
+                      and not isinstance(f.a, (ast.Starred, ast.Slice, ast.JoinedStr)) and not isinstance(f.parent.a, (ast.JoinedStr,))]
+            for path in spaths:
+                for new in ('b1 if c1 else d1', 'lambda: z1', 'y1 := 1', 'p1, q1', 'not n1', 'u1 or v1', 'yield w1', 'await aw', '*st', '-m1 ** 2'):
+                    for form in ('src', 'ast'):
+                        root = fst.FST(SLOT_PROG, 'exec')
+                        f = root.child_from_path(path)
+                        rec = {'src': SLOT_PROG, 'slot': f'{type(f.parent.a).__name__}.{f.pfield.name}', 'node': repr(f), 'new': new, 'form': form}
+                        try:
+                            code = new if form == 'src' else ast.parse(f'[{new}]' if new.startswith('*') else f'({new})', mode='eval').body
+                            if form == 'ast' and new.startswith('*'):
+                                code = code.elts[0]
+                            f.replace(code)
+                        except Exception as e:
+                            ctx.dist['sweep:slot:refused'] = ctx.dist.get('sweep:slot:refused', 0) + 1
+                            d = reparse_diffs(root)
+                            if d:
+                                ctx.violation(f'sweep-raise-dirty|slot|{type(e).__name__}', 'a refused replacement left an inconsistent tree', {**rec, 'error': repr(e)[:200], 'diffs': d})
+                            continue
+                        ctx.tick(('sweep-slot', str(path), new, form), 'sweep:slot-low-precedence')
+                        d = reparse_diffs(root)
+                        if d:
+                            ctx.violation(f'pos|slot|{type(f.parent.a).__name__}.{f.pfield.name}|{new}', 'after replacing an expression by one of low precedence the source parsed from scratch differs from the live tree',
+                                          {**rec, 'result_src': root.src, 'diffs': d[:4]})
+            # (i) statements put into the EMPTY else / finally part of every kind of block statement (an `if` alone after an If may be written `elif`, nowhere else)
+            for hsrc, get in (('for i in x:\n    pass\n', lambda r: r.body[0]), ('while c:\n    pass\n', lambda r: r.body[0]), ('try:\n    pass\nexcept E:\n    pass\n', lambda r: r.body[0]),
+                              ('try:\n    pass\nexcept* E:\n    pass\n', lambda r: r.body[0]), ('if c:\n    pass\n', lambda r: r.body[0]), ('async def f():\n    async for i in x:\n        pass\n', lambda r: r.body[0].body[0]),
+                              ('if o:\n    for i in x:\n        pass\n', lambda r: r.body[0].body[0]), ('if c:\n    pass\nelif d:\n    pass\n', lambda r: r.body[0].orelse[0])):
+                for fld in ('orelse', 'finalbody'):
+                    for new in ('if a:\n    b\n', 'if a:\n    b\nelse:\n    c\n', 'if a: b\n', 'x = 1\n', 'if a:\n    b\ny = 2\n', 'for j in k: pass\n'):
+                        for how in ('append', 'put_slice', 'assign'):
+                            for form in ('src', 'fst', 'ast'):
+                                root = fst.FST(hsrc, 'exec')
+                                node = get(root)
+                                if not hasattr(node.a, fld) or getattr(node.a, fld):
+                                    continue
+                                code = new if form == 'src' else fst.FST(new, 'exec') if form == 'fst' else ast.parse(new)
+                                rec = {'src': hsrc, 'field': fld, 'new': new, 'how': how, 'form': form}
+                                try:
+                                    if how == 'append':
+                                        getattr(node, fld).append(code)
+                                    elif how == 'put_slice':
+                                        node.put_slice(code, 0, 0, fld)
+                                    else:
+                                        setattr(node, fld, code)
+                                except Exception as e:
+                                    ctx.dist['sweep:empty-clause:refused'] = ctx.dist.get('sweep:empty-clause:refused', 0) + 1
+                                    continue
+                                ctx.tick(('sweep-clause', hsrc, fld, new, how, form), 'sweep:empty-clause-put')
+                                d = reparse_diffs(root)
+                                if d:
+                                    ctx.violation(f'pos|empty-clause-put|{type(node.a).__name__}.{fld}', 'after putting statements into an empty clause the source parsed from scratch differs from the live tree',
+                                                  {**rec, 'result_src': root.src, 'diffs': d[:4]})
             # (c) primitives put to Constant.value where the constant touches its neighbours
             for csrc in PRIM_PROGS:
                 cprobe = fst.FST(csrc, 'exec')
